@@ -543,7 +543,11 @@ def bk5(p, res):
             if (f.callee_def(t) or {}).get("n") in ("is_multiple_of",) and len(t["a"]) == 2 and t["a"][1][0] == "k" and t["a"][1][1].get("v") in (2, 4, 8, 16):
                 # a quantity is asserted to be a multiple of the lane count
                 asserted = True
-        if has_tail or rem or asserted:
+        masked = any("maskload" in x or "maskstore" in x for x in (((f.callee_def(t) or {}).get("n", "")) for _, t in f.calls()))
+        if rem and masked and not has_tail and not asserted:
+            # the remainder is handled by masked lanes: whether the mask enables exactly `len % lanes` lanes is a fact about values
+            res.undec("BK-5", "%s: remainder handled through masked loads / stores (lane mask not decided)" % f.pretty)
+        elif has_tail or rem or asserted:
             res.ok("BK-5", {"kernel": f.pretty, "tail": "ref fallback" if has_tail else ("remainder test" if rem else "asserted multiple")} if n % 10 == 1 else None)
         else:
             res.bad("BK-5", f.pretty, "no-tail", "%s runs len >> %d vector iterations and never touches the remaining len %% %d elements (no scalar tail, no fallback to the reference kernel): for ring degrees below the lane count the output is left unwritten while the reference backend computes it"
